@@ -1015,11 +1015,16 @@ class ReplayReport:
         self.notes: List[str] = []
 
 
-def _scenario(prog, report: ReplayReport, label: str, steps: List[Tuple[str, Callable]], nest_at: Optional[int] = None, end_by_exception: bool = False) -> None:
+def _scenario(prog, report: ReplayReport, label: str, steps: List[Tuple[str, Callable]], nest_at: Optional[int] = None, end_by_exception: bool = False, prepare: Optional[Callable] = None) -> None:
     """Enter a context, run the steps (entering an inner context before step ``nest_at`` and leaving it at the end of
-    the steps), leave; compare."""
+    the steps), leave; compare. ``prepare`` edits the model before the block (the state the block has to give back)."""
     w, m, h = _fresh(prog)
     skip = _skip_attrs(prog)
+    if prepare is not None:
+        try:
+            prepare(w, m, h)
+        except (EvalRaise, Unknown) as exc:
+            raise AnalysisError(f"C03.replay: {label}: the preparation cannot be evaluated: {exc}")
     before = snapshot(m, skip)
     report.scenarios += 1
     inner_before = None
@@ -1125,6 +1130,12 @@ def run_replay(prog) -> ReplayReport:
         _scenario(prog, rep, f"`{OPS[a][0]}`, then in an inner block `{OPS[b][0]}`", [OPS[a], OPS[b]], nest_at=1)
     for steps in (["bounds", "lower_bound", "negative bounds"], ["remove_reactions", "remove_metabolites", "add_metabolites", "direction"], ["scale", "reverse", "subtract", "objective coefficient"]):
         _scenario(prog, rep, " then ".join(f"`{OPS[s][0]}`" for s in steps), [OPS[s] for s in steps])
+    # a model that minimises (the stand-in's default is to maximise): every objective edit gives the direction back too
+    to_min = lambda w, m, h: _set(m, "objective_direction", "min")  # noqa: E731
+    for name in ("objective reaction", "objective dict", "objective coefficient", "bounds", "remove_reactions", "add_reactions"):
+        _scenario(prog, rep, f"`{OPS[name][0]}` inside `with model:` on a model that minimises", [OPS[name]], prepare=to_min)
+    _scenario(prog, rep, f"`{OPS['objective reaction'][0]}` then `{OPS['objective dict'][0]}` on a model that minimises", [OPS["objective reaction"], OPS["objective dict"]], prepare=to_min)
+    _scenario(prog, rep, f"`{OPS['objective reaction'][0]}`, then in an inner block `{OPS['objective coefficient'][0]}`, on a model that minimises", [OPS["objective reaction"], OPS["objective coefficient"]], nest_at=1, prepare=to_min)
     for first in ("bounds", "remove_reactions", "objective reaction", "add_reactions"):
         for name, (what, op) in RAISING.items():
             _scenario(prog, rep, f"`{OPS[first][0]}` then `{what}`, which raises", [OPS[first], (what, op)])
@@ -1144,6 +1155,139 @@ def run_replay(prog) -> ReplayReport:
         rep.c01 += [f"after the refused `{what}`: {f}" for f in x01[:1]]
     prog._replay_report = rep
     return rep
+
+
+# ------------------------------------------------------------------------------------- documented effects (C02)
+def _cd(**kv):
+    return ("dict", tuple(sorted((k, v) for k, v in kv.items())))
+
+
+def _cs(*xs):
+    return ("set", tuple(sorted(xs)))
+
+
+def _objective_of(before: Dict[str, Any], coefficients: Dict[str, float], direction: str):
+    terms = []
+    for rid, k in coefficients.items():
+        rev = [key[4:] for key in before if key.startswith(f"var {rid}_reverse_")]
+        terms += [(rid, float(k)), (rev[0] if rev else f"{rid}_reverse", -float(k))]
+    return (tuple(sorted(terms)), 0.0, direction)
+
+
+def _effects():
+    """(what, preparation, operation, {cell: value it must have afterwards}, prefixes of cells that may appear,
+    objective afterwards as (coefficients, direction) or None = as it was). Written from the documentation of the
+    operations; every cell of the model (not of the solver: C01 ties that to the model) that is not named must be as
+    it was before."""
+    M, R, G, Mo = "Metabolite:", "Reaction:", "Gene:", "Model:toy."
+    to_min = lambda w, m, h: _set(m, "objective_direction", "min")  # noqa: E731
+    rl = lambda *extra: ("list", tuple(sorted(("Reaction:EX_a", "Reaction:R1", "Reaction:R2", "Reaction:TR") + extra)))  # noqa: E731
+    E = []
+    E.append(("R1.bounds = (-3, 4)", None, OPS["bounds"][1], {R + "R1._lower_bound": -3.0, R + "R1._upper_bound": 4.0}, (), None))
+    E.append(("R1.lower_bound = 5", None, OPS["lower_bound"][1], {R + "R1._lower_bound": 5.0}, (), None))
+    E.append(("R2.upper_bound = 20", None, OPS["upper_bound"][1], {R + "R2._upper_bound": 20.0}, (), None))
+    E.append(("EX_a.bounds = (-9, -2)", None, OPS["negative bounds"][1], {R + "EX_a._lower_bound": -9.0, R + "EX_a._upper_bound": -2.0}, (), None))
+    E.append(("R1.bounds = (0, 0)", None, lambda w, m, h: _set(h["R1"], "bounds", (0.0, 0.0)), {R + "R1._lower_bound": 0.0, R + "R1._upper_bound": 0.0}, (), None))
+    E.append(("R1.knock_out()", None, OPS["knock_out"][1], {R + "R1._lower_bound": 0.0, R + "R1._upper_bound": 0.0}, (), None))
+    E.append(("R1.add_metabolites({c_c: 1.5})", None, OPS["add new metabolite"][1], {M + "c_c._reaction": _cs(R + "R1", R + "R2"), R + "R1._metabolites": _cd(**{M + "a_c": -1.0, M + "b_c": 1.0, M + "c_c": 1.5})}, (), None))
+    E.append(("R1.add_metabolites({b_c: -1})", None, OPS["cancel metabolite"][1], {M + "b_c._reaction": _cs(R + "R2"), R + "R1._metabolites": _cd(**{M + "a_c": -1.0})}, (), None))
+    E.append(("R1.add_metabolites({b_c: 4, c_c: 2}, combine=False)", None, OPS["replace coefficients"][1], {M + "c_c._reaction": _cs(R + "R1", R + "R2"), R + "R1._metabolites": _cd(**{M + "a_c": -1.0, M + "b_c": 4.0, M + "c_c": 2.0})}, (), None))
+    E.append(("R2.add_metabolites({'a_c': 0.5})", None, OPS["metabolite by id"][1], {M + "a_c._reaction": _cs(R + "R1", R + "R2", R + "TR"), R + "R2._metabolites": _cd(**{M + "a_c": 0.5, M + "b_c": -1.0, M + "c_c": 2.0})}, (), None))
+    E.append(("R1.add_metabolites({'b_c': 2})", None, OPS["existing metabolite by id"][1], {R + "R1._metabolites": _cd(**{M + "a_c": -1.0, M + "b_c": 3.0})}, (), None))
+    E.append(("R2.subtract_metabolites({c_c: 2})", None, OPS["subtract"][1], {M + "c_c._reaction": _cs(), R + "R2._metabolites": _cd(**{M + "b_c": -1.0})}, (), None))
+    E.append(("R2.subtract_metabolites({c_c: 0.5})", None, lambda w, m, h: h["R2"].subtract_metabolites({h["mets"]["c_c"]: 0.5}), {R + "R2._metabolites": _cd(**{M + "b_c": -1.0, M + "c_c": 1.5})}, (), None))
+    E.append(("R2 *= 2", None, OPS["scale"][1], {R + "R2._metabolites": _cd(**{M + "b_c": -2.0, M + "c_c": 4.0})}, (), None))
+    E.append(("R1 *= -1", None, OPS["reverse"][1], {R + "R1._metabolites": _cd(**{M + "a_c": 1.0, M + "b_c": -1.0}), R + "R1._lower_bound": -1000.0, R + "R1._upper_bound": 10.0}, (), None))
+    E.append(("R1.gene_reaction_rule = 'g3 or g4'", None, OPS["rule with a new gene"][1],
+              {G + "g1._reaction": _cs(), G + "g2._reaction": _cs(R + "R2"), G + "g3._reaction": _cs(R + "R1", R + "R2"), Mo + "genes": ("list", (G + "g1", G + "g2", G + "g3", G + "g4")), R + "R1._genes": _cs(G + "g3", G + "g4"), R + "R1._gpr": ("rule", "g3 or g4"),
+               G + "g4._reaction": _cs(R + "R1"), G + "g4._id": "g4", G + "g4._model": "Model:toy"}, (G + "g4.",), None))
+    E.append(("R1.gene_reaction_rule = ''", None, OPS["rule emptied"][1], {G + "g1._reaction": _cs(), G + "g2._reaction": _cs(R + "R2"), R + "R1._genes": _cs(), R + "R1._gpr": ("rule", "")}, (), None))
+    for prep, direction, tag in ((None, "max", ""), (to_min, "min", " on a model that minimises")):
+        E.append(("model.objective = R1" + tag, prep, OPS["objective reaction"][1], {}, (), ({"R1": 1.0}, direction)))
+        E.append(("model.objective = {R1: 2, EX_a: -1}" + tag, prep, OPS["objective dict"][1], {}, (), ({"R1": 2.0, "EX_a": -1.0}, direction)))
+        E.append(("R1.objective_coefficient = 3" + tag, prep, OPS["objective coefficient"][1], {}, (), ({"R2": 1.0, "R1": 3.0}, direction)))
+    E.append(("model.objective_direction = 'min'", None, OPS["direction"][1], {}, (), ({"R2": 1.0}, "min")))
+
+    def boundary(rid, met, lb, ub, extra_rxns):
+        return {M + f"{met}._reaction": _cs(*(extra_rxns + (R + rid,))), Mo + "reactions": rl(R + rid), R + f"{rid}._id": rid, R + f"{rid}._lower_bound": lb, R + f"{rid}._upper_bound": ub,
+                R + f"{rid}._metabolites": _cd(**{M + met: -1.0}), R + f"{rid}._model": "Model:toy", R + f"{rid}._genes": _cs()}
+
+    E.append(("model.add_boundary(c_c, type='demand')", None, OPS["add_boundary demand"][1], boundary("DM_c_c", "c_c", 0.0, 1000.0, (R + "R2",)), (R + "DM_c_c.",), None))
+    E.append(("model.add_boundary(c_c, type='demand', ub=0)", None, lambda w, m, h: m.add_boundary(h["mets"]["c_c"], type="demand", ub=0.0), boundary("DM_c_c", "c_c", 0.0, 0.0, (R + "R2",)), (R + "DM_c_c.",), None))
+    E.append(("model.add_boundary(a_e, type='exchange', reaction_id='EX_a2')", None, OPS["add_boundary exchange"][1], boundary("EX_a2", "a_e", -1000.0, 1000.0, (R + "EX_a", R + "TR")), (R + "EX_a2.",), None))
+    E.append(("model.add_boundary(a_e, type='exchange', reaction_id='EX_a2', lb=-5, ub=0)", None, lambda w, m, h: m.add_boundary(h["mets"]["a_e"], type="exchange", reaction_id="EX_a2", lb=-5.0, ub=0.0),
+              boundary("EX_a2", "a_e", -5.0, 0.0, (R + "EX_a", R + "TR")), (R + "EX_a2.",), None))
+    E.append(("model.add_boundary(b_c, type='sink', lb=0, ub=7)", None, lambda w, m, h: m.add_boundary(h["mets"]["b_c"], type="sink", lb=0.0, ub=7.0), boundary("SK_b_c", "b_c", 0.0, 7.0, (R + "R1", R + "R2")), (R + "SK_b_c.",), None))
+    E.append(("model.add_boundary(b_c, type='leak', reaction_id='LK_b', lb=-2, ub=0)", None, lambda w, m, h: m.add_boundary(h["mets"]["b_c"], type="leak", reaction_id="LK_b", lb=-2.0, ub=0.0),
+              boundary("LK_b", "b_c", -2.0, 0.0, (R + "R1", R + "R2")), (R + "LK_b.",), None))
+    E.append(("model.add_metabolites([z_c])", None, OPS["add_metabolites"][1], {Mo + "metabolites": ("list", tuple(sorted(M + x for x in ("EX_a", "a_c", "a_e", "b_c", "c_c", "z_c")))), M + "z_c._model": "Model:toy", M + "z_c._reaction": _cs()}, (M + "z_c.",), None))
+    return E
+
+
+def run_effects(prog) -> Tuple[List[str], int]:
+    """Every operation of the table on a fresh copy of the toy model, no context: afterwards the named cells hold the
+    documented values, nothing else of the model differs, the objective is the documented one (as it was when the
+    operation does not concern it)."""
+    memo = getattr(prog, "_effects_report", None)
+    if memo is not None:
+        return memo
+    skip = _skip_attrs(prog)
+    out: List[str] = []
+    n = 0
+    for what, prep, op, want, may_appear, objective in _effects():
+        w, m, h = _fresh(prog)
+        try:
+            if prep is not None:
+                prep(w, m, h)
+            before = snapshot(m, skip)
+            op(w, m, h)
+        except EvalRaise as exc:
+            out.append(f"`{what}` raises {exc.exc_type} on the toy model")
+            continue
+        except Unknown as exc:
+            raise AnalysisError(f"C02.effect: `{what}` cannot be evaluated: {exc}")
+        except (Unsupported, RecursionError) as exc:
+            raise AnalysisError(f"C02.effect: `{what}` leaves the solver stand-in: {exc}")
+        n += 1
+        after = snapshot(m, skip)
+        solver_cell = lambda k: k.startswith(("var ", "cons ")) or k == "objective" or k.endswith("._solver")  # noqa: E731
+        for k, v in want.items():
+            if k not in after:
+                out.append(f"`{what}`: afterwards there is no {k} (documented: {v!r})")
+            elif after[k] != v:
+                out.append(f"`{what}`: afterwards {k} is {after[k]!r:.120}, documented: {v!r:.120}")
+        for k in sorted(set(before) | set(after)):
+            if solver_cell(k) or k in want:
+                continue
+            if k not in after:
+                out.append(f"`{what}`: {k} is gone, which the operation does not document")
+            elif k not in before:
+                if not k.startswith(tuple(may_appear)):
+                    out.append(f"`{what}`: {k} = {after[k]!r:.80} appears, which the operation does not document")
+            elif before[k] != after[k]:
+                out.append(f"`{what}` also changes {k}: {before[k]!r:.100} -> {after[k]!r:.100} (everything the documentation does not name has to stay as it was)")
+        want_obj = before.get("objective") if objective is None else _objective_of(before, *objective)
+        if after.get("objective") != want_obj:
+            out.append(f"`{what}`: afterwards the objective is {after.get('objective')!r:.160}, " + ("it was" if objective is None else "documented:") + f" {want_obj!r:.160}")
+    prog._effects_report = (out, n)
+    return out, n
+
+
+def check_effects(ctx, rule: str) -> None:
+    fn = ctx.prog.func("cobra.core.model", "Model.add_boundary")
+    anchors = (("add_boundary", fn), ("objective", ctx.prog.func("cobra.util.solver", "set_objective")), ("bound", ctx.prog.func("cobra.core.reaction", "Reaction.bounds")),
+               ("", ctx.prog.func("cobra.core.reaction", "Reaction.add_metabolites")))
+    found, n = run_effects(ctx.prog)
+    if found:
+        groups: Dict[str, List[str]] = {}
+        for f in found:
+            groups.setdefault(f.split("`")[1], []).append(f)
+        for k, fs in list(groups.items())[:6]:
+            where = next(f_ for key, f_ in anchors if key in k)
+            ctx.bad(rule, where, f"documented effect: {k}", "; ".join(fs[:2]) + (f" (+{len(fs) - 2} more)" if len(fs) > 2 else ""))
+    else:
+        ctx.ok(rule, fn, "documented effects", f"{n} editing operations evaluated on the stand-in model (bounds, coefficients by object and by identifier, scaling and reversal, rules, objective edits on a maximising and on a minimising model, "
+                                               "boundary reactions of every type with and without explicit bounds - zero included): the cells the documentation names hold the documented values, every other cell of the model is as it was")
 
 
 def check_replay(ctx, rule: str, part: str = "restore") -> None:
